@@ -34,33 +34,48 @@ func ZZ_C18_Styling() {
 	file := "2020-01-01 (8h!)\n" + sb + " #tag\n    " + dg + "h #a=1 x\n    -30m\n    8:00 - 9:15 #tag\n\n2020-01-02\n    1" + dg + ":00 - ?\n"
 	theme := []tf.ColourTheme{tf.COLOUR_THEME_DARK, tf.COLOUR_THEME_LIGHT, tf.COLOUR_THEME_BASIC}[zz.Choose(3)]
 	cmdSel := zz.Param("cmd")
+	decimal := zz.Choose(2) == 1   // --decimal
+	viaFlag := zz.Choose(2) == 1   // unstyled run: --no-style flag instead of the no_colour scheme
 	aggSel := 0
 	if cmdSel == 3 {
 		aggSel = zz.Choose(5)
 	}
+	noStyle := false
 	run := func(ctx app.Context) app.Error {
 		switch cmdSel {
 		case 0:
-			return (&Print{}).Run(ctx)
+			c := &Print{}
+			c.NoStyle = noStyle
+			return c.Run(ctx)
 		case 1:
-			return (&Print{WithTotals: true}).Run(ctx)
+			c := &Print{WithTotals: true}
+			c.NoStyle = noStyle
+			return c.Run(ctx)
 		case 2:
 			c := &Total{}
 			c.Diff = true
+			c.Decimal = decimal
+			c.NoStyle = noStyle
 			return c.Run(ctx)
 		case 3:
 			c := &Report{}
 			c.NoWarn = true // (warnings are printed after the table and are not rows)
+			c.Decimal = decimal
+			c.NoStyle = noStyle
 			c.Diff = true
 			c.Fill = true
 			c.AggregateBy = []string{"day", "week", "month", "quarter", "year"}[aggSel]
 			return c.Run(ctx)
 		case 4:
 			c := &Tags{Values: true, Count: true}
+			c.Decimal = decimal
+			c.NoStyle = noStyle
 			c.NoWarn = true
 			return c.Run(ctx)
 		case 5:
 			c := &Today{}
+			c.Decimal = decimal
+			c.NoStyle = noStyle
 			c.NoWarn = true
 			c.Diff = true
 			return c.Run(ctx)
@@ -68,7 +83,15 @@ func ZZ_C18_Styling() {
 		return nil
 	}
 	styled, e1 := zzRunWithTheme(file, theme, run)
-	plain, e2 := zzRunWithTheme(file, tf.COLOUR_THEME_NO_COLOUR, run)
+	plainTheme := tf.COLOUR_THEME_NO_COLOUR
+	if viaFlag {
+		noStyle = true
+		plainTheme = theme
+	}
+	plain, e2 := zzRunWithTheme(file, plainTheme, run)
+	if viaFlag {
+		zz.Assert(tf.StripAllAnsiSequences(plain) == plain, "no-style-output-has-no-sgr-sequences")
+	}
 	zz.Assert((e1 == nil) == (e2 == nil), "same-outcome-with-and-without-styling")
 	zz.Assert(tf.StripAllAnsiSequences(styled) == tf.StripAllAnsiSequences(plain), "styling-only-adds-sgr-sequences")
 	if cmdSel >= 3 && e1 == nil {
